@@ -464,6 +464,12 @@ def _defaults_case(draw):
   if twist == 'extreme_bounds' and shape == 'flat':
     # DOUBLE ranges close to the limits of a double (default seeding uses no
     # numpy RNG, so the 1e150 cap of harness/spaces.py is not needed here)
+    if not any(p['kind'] == 'DOUBLE' and p.get('scale') in (None, 'LINEAR')
+               for p in spec['params']):
+      # make sure the twist has something to act on
+      spec['params'][0] = {'name': spec['params'][0]['name'],
+                           'kind': 'DOUBLE', 'lo': 0.0, 'hi': 1.0,
+                           'scale': draw(st.sampled_from([None, 'LINEAR']))}
     for p in spec['params']:
       if p['kind'] == 'DOUBLE' and p.get('scale') in (None, 'LINEAR'):
         lo, hi = draw(st.sampled_from([
